@@ -199,6 +199,38 @@ def run(ck: Check) -> int:
         K.k5_loop(sr, drv, G, W, U, R, ntrees, lambda R_, t: _cases(R_, G, t, per), on_case)
     ck.stream('K5-glob-events', s_k5)
 
+
+    # case-variant sibling directories under IGNORECASE (added after seeded change C05a: a literal
+    # directory segment shared the remaining-parts list between its several case-insensitive hits)
+    def _case_spec(R_):
+        spec = [('d', 'dir', ''), ('d/a', 'dir', ''), ('d/A', 'dir', ''), ('d/a/x', 'dir', ''), ('d/A/x', 'dir', ''),
+                ('d/a/x/f1', 'file', ''), ('d/A/x/f2', 'file', ''), ('d/a/x/y', 'dir', ''), ('d/A/x/y', 'dir', ''),
+                ('d/a/x/y/g1', 'file', ''), ('d/A/x/y/g2', 'file', ''), ('D', 'dir', ''), ('D/a', 'dir', ''), ('D/a/x', 'dir', ''),
+                ('D/a/x/f3', 'file', ''), ('d/ab', 'dir', ''), ('d/AB', 'file', ''), ('d/a/X', 'dir', ''), ('d/a/X/f4', 'file', '')]
+        keep = [e for e in spec if R_.random() < 0.9]
+        have = {e[0] for e in keep}
+        return [e for e in keep if '/' not in e[0] or e[0].rsplit('/', 1)[0] in have]
+
+    CASE_PATS = ['d/a/x/*', 'd/a/*/*', '*/a/x/*', 'd/A/x/*', 'D/a/x/*', '**/a/x/*', 'd/a/x/y/*', 'd/a/x/*/*', '*/*/x/*', 'd/a/x/f1',
+                 'd/[a]/x/*', 'd/a/x/**', 'd/a/x/', 'd/a/x/y/', 'd/ab/*', 'd/a/x/y/g*', '**/x/y/*', 'd/a/**/g*', 'D/A/X/*']
+
+    def _case_cases(R_, t):
+        out = []
+        for _ in range(8 if quick else 16):
+            fl = G.IGNORECASE if R_.random() < 0.85 else 0
+            for nm, pr in (('GLOBSTAR', 0.7), ('MARK', 0.2), ('NOUNIQUE', 0.2), ('EXTGLOB', 0.3), ('DOTGLOB', 0.1)):
+                if R_.random() < pr:
+                    fl |= getattr(G, nm)
+            out.append(K.Case(R_.choice(CASE_PATS), fl, None, R_.choice(['root_dir', 'root_dir', 'cwd'])))
+        return out
+
+    def s_k5case(sr):
+        sr.note = ('K5 on trees with sibling directories that differ only in case (d/a, d/A, D/a …, each with its own content), '
+                   'IGNORECASE in most runs, literal segments in every position')
+        K.k5_loop(sr, drv, G, W, U, R, 40 if quick else 400, _case_cases, on_case, spec_for=_case_spec)
+    if drv:
+        ck.stream('K5-case-variant-trees', s_k5case)
+
     def s_search(sr):
         sr.note = 'set(glob.glob(p)) vs Spec.denoteTop on the same tree (one pattern, no exclusions)'
         sr.histogram = dict(stats)
